@@ -98,15 +98,30 @@ ATT_FN = re.compile(r'^([ \t]*(?:ATTACHMENT|APPENDIX|SCHEDULE|ANNEXURE)[^\n]*?)\
 
 
 def _unref_footnotes(text):
-    refs = set(re.findall(r'\{\{FOOTNOTE ([^}\n]*?)\s*\}\}', text))
-    return re.sub(r'^([ \t]*)FOOTNOTE +([^ \n]+)[ \t]*$', lambda m: m.group(0) if m.group(2) in refs else m.group(1) + 'BLOCKS', text, flags=re.M)
+    """FOOTNOTE lines that no reference outside their own block claims become BLOCKS (a reference inside the block
+    cannot take it: fix 13653fd)"""
+    raw = text.split('\n')
+    ls = text.replace('\t', '  ').split('\n')
+    ind = lambda l: len(l) - len(l.lstrip(' '))
+    out = list(raw)   # only FOOTNOTE lines are rewritten; every other line stays as it was written
+    for i, l in enumerate(ls):
+        m = re.match(r'^( *)FOOTNOTE +([^ \n]+) *$', l)
+        if not m:
+            continue
+        j = i + 1
+        while j < len(ls) and (not ls[j].strip() or ind(ls[j]) > len(m.group(1))):
+            j += 1
+        outside = '\n'.join(ls[:i] + ls[j:])
+        refs = set(re.findall(r'\{\{FOOTNOTE ([^}\n]*?)\s*\}\}', outside))
+        if m.group(2) not in refs:
+            out[i] = m.group(1) + 'BLOCKS'
+    return '\n'.join(out)
 
 
 REPAIRS = [
     # id, what the repair removes from the input
     ('F8', lambda t: BARE.sub(lambda m: m.group(1) + ' x', t)),                       # bare LONGTITLE / CROSSHEADING
     ('F30', lambda t: re.sub(r'\{by [^|}\n]*\}', '', re.sub(r'\|by [^|}\n]*', '', re.sub(r'\{by [^|}\n]*\|', '{', t)))),  # explicit by attribute
-    ('F9', lambda t: re.sub(r'^([ \t]*)\\ITEM', r'\1xITEM', t, flags=re.M)),          # list introduction starting with ITEM
     ('F7', lambda t: ATT_FN.sub(lambda m: m.group(1), t)),                              # footnote reference in an attachment heading
     ('F6', _unref_footnotes),
     # a reference whose marker contains a blank: no FOOTNOTE block line can carry that marker
